@@ -205,3 +205,140 @@ def input_gates(P, rep, rule="G3.input"):
         rep.violation(rule, "parse_entries: version check", W.nloc(late[0]) if late else W.nloc(node), W.qn, txt[:120],
                       "parameters are used before the version check" if late else "version check does not compare with MAJOR.MINOR",
                       key=rule + "|version|order", witness="file written for another version builds a world")
+
+
+# ------------------------------------------------------------------------------------------------
+def controlling(F):
+    """block -> frozenset of (branch block, successor index) it is transitively control dependent on"""
+    cd = F.control_deps()
+    memo = {}
+
+    def closure(b, stack=()):
+        if b in memo:
+            return memo[b]
+        out = set()
+        for (a, idx) in cd.get(b, ()):
+            out.add((a, idx))
+            if a != b and a not in stack:
+                out |= closure(a, stack + (b,))
+        memo[b] = out
+        return out
+    return {b["id"]: frozenset(closure(b["id"])) for b in F.cfg["blocks"]}
+
+
+def branch_info(P, F):
+    """branch block -> (kind, condition node) where kind in {'switch','loop','cond'}"""
+    out = {}
+    for b in F.cfg["blocks"]:
+        tk = b.get("tk")
+        if tk is None:
+            continue
+        tnode = F.nodes.get(b.get("t"))
+        cnode = F.nodes.get(b.get("tc")) if b.get("tc") is not None else None
+        if tk == "SwitchStmt":
+            out[b["id"]] = ("switch", cnode)
+        elif tk in ("ForStmt", "CXXForRangeStmt", "WhileStmt", "DoStmt"):
+            out[b["id"]] = ("loop", cnode)
+        elif tk in ("IfStmt", "BinaryOperator", "ConditionalOperator"):
+            kind = "cond"
+            if tnode is not None and tnode.get("m") in ("WBAssert", "WBAssertThrow") and not tnode.get("ma"):
+                kind = "assert"
+            out[b["id"]] = (kind, cnode)
+        else:
+            out[b["id"]] = ("other", cnode)
+    return out
+
+
+def output_writes(P, F, out_key):
+    """nodes that write the output parameter: output[...] = v, compound assignments, unroll_into(output, ...)"""
+    ws = []
+    for n in F.walk():
+        k = n.get("k")
+        if k in ("BinaryOperator", "CompoundAssignOperator") and n.get("op") in norm.ASSIGN_OPS:
+            s = astq.subscript(n["c"][0])
+            if s and astq.is_ref_to(s[0], out_key):
+                ws.append(n)
+        elif k == "CXXMemberCallExpr" and not P.d(n.get("callee")).get("const", False) or (k == "CXXMemberCallExpr" and n["c"][0].get("n") == "unroll_into"):
+            for a in n["c"][1:]:
+                if astq.is_ref_to(a, out_key):
+                    pt = P.d(n.get("callee")).get("pt", [])
+                    idx = n["c"][1:].index(a)
+                    if idx < len(pt) and pt[idx]["mode"] in ("ref", "ptr"):
+                        ws.append(n)
+            me = n["c"][0]
+            if me.get("c") and astq.is_ref_to(me["c"][0], out_key) and me.get("n") not in ("operator[]", "at", "size", "begin", "end"):
+                ws.append(n)
+        elif k == "CallExpr":
+            pt = P.d(n.get("callee")).get("pt", [])
+            for idx, a in enumerate(n["c"][1:]):
+                if astq.is_ref_to(a, out_key) and idx < len(pt) and pt[idx]["mode"] in ("ref", "ptr"):
+                    ws.append(n)
+    return ws
+
+
+def writes_under_extent(P, rep, rule="G1"):
+    rep.rule(rule, "in every feature all writes to the result vector are control-dependent on one and the same set of conditions "
+                   "(the feature's extent test: a depth interval and a footprint/distance test), whatever the property kind; no "
+                   "write is reachable when the extent test fails")
+    from .layout import feature_properties
+    n_w = 0
+    for F in feature_properties(P):
+        out_key = F.params[6]
+        depth_key = F.params[2]
+        ws = output_writes(P, F, out_key)
+        n_w += len(ws)
+        if not ws:
+            rep.violation(rule, "%s never writes the result" % F.qn, F.loc, F.qn, "", "feature has no effect", key="%s|%s|nowrite" % (rule, F.qn))
+            continue
+        ctl = controlling(F)
+        info = branch_info(P, F)
+        sets = []
+        for w in ws:
+            b = F.block_of(w)
+            cs = {(a, i) for (a, i) in ctl.get(b, ()) if info.get(a, ("other", None))[0] == "cond"}
+            sets.append((w, cs))
+        common = set.intersection(*(cs for _, cs in sets))
+        desc = sorted(norm.render(P, info[a][1])[:70] + ("" if i == 0 else " [false branch]") for a, i in common if info[a][1] is not None)
+        # the common guard must involve the depth and the horizontal position
+        txt = " ".join(desc)
+        has_depth = any(any(x.get("k") == "DeclRefExpr" and x.get("r") == depth_key for x in F.walk(info[a][1])) for a, i in common if info[a][1] is not None)
+        GEOM = ("polygon_contains_point", "relative_distance_from_center", "distance_from_plane", "point_inside", "distance_from_planes",
+                "distance_along_plane", "fraction_from_ellipse_center")
+        has_geom = False
+        for a, i in common:
+            c = info[a][1]
+            if c is None:
+                continue
+            for x in F.walk(c):
+                nm = x.get("n", "") or ""
+                if x.get("callee"):
+                    nm = nm + " " + P.d(x["callee"]).get("qn", "")
+                if any(g in nm for g in GEOM):
+                    has_geom = True
+        if not common or not has_depth or not has_geom:
+            rep.violation(rule, "%s: writes share no extent test (common guard: %s)" % (F.qn, desc or "none"), F.nloc(ws[0]), F.qn, "",
+                          "a point outside the feature can be modified", key="%s|%s|noguard" % (rule, F.qn),
+                          witness="a point outside the feature's footprint or depth range")
+            continue
+        bad = [(w, cs - common) for w, cs in sets if cs - common]
+        missing = [(w, common - cs) for w, cs in sets if common - cs]
+        if missing:
+            for w, m in missing:
+                rep.violation(rule, "%s: write `%s` is not under the feature's extent test" % (F.qn, norm.render(P, w)[:60]), F.nloc(w), F.qn,
+                              norm.render(P, w)[:100], "not controlled by: %s" % sorted(norm.render(P, info[a][1])[:50] for a, i in m),
+                              key="%s|%s|outside|%s" % (rule, F.qn, norm.render(P, w["c"][0])[:30] if w.get("c") else ""),
+                              witness="a point outside the feature's extent")
+        extra_desc = {}
+        for w, ex in bad:
+            for a, i in ex:
+                extra_desc.setdefault(norm.render(P, info[a][1])[:80] if info[a][1] is not None else "?", []).append(w)
+        if extra_desc:
+            # writes that are under additional conditions: all kinds must share the guard, so extra conditions around
+            # some writes only (e.g. the tag written under fewer/more conditions than the temperature) are reported
+            for c, wl in extra_desc.items():
+                rep.violation(rule, "%s: %d write(s) are additionally conditional on `%s`" % (F.qn, len(wl), c), F.nloc(wl[0]), F.qn,
+                              norm.render(P, wl[0])[:100], "property kinds do not share one extent test: inside the feature some values are painted and others not",
+                              key="%s|%s|extra|%s" % (rule, F.qn, c[:40]), witness="a point inside the feature where this condition is false")
+        if not missing and not extra_desc:
+            rep.ok(rule, "%s: %d writes, all under {%s}" % (F.qn.split("::")[-2], len(ws), "; ".join(desc)), F.loc, F.qn)
+    rep.floor(rule, n_w, 36, "writes to the result vector in the 6 features")
